@@ -261,8 +261,10 @@ class Gen:
             # an EXISTENTIAL variable: bound by one atom, used only in one one-sided comparison (index range patterns with a
             # single bound; if-conversion / if-exists conversion of scans whose tuple is not otherwise used)
             cands = [x for x in lower if "i" in x["types"]]
+            used = {l["rel"] for l in body if l["k"] == "atom"}
+            fresh_rel = [x for x in cands if x["name"] not in used]     # a relation not otherwise in the body: the bound can fail for all of its tuples
             if cands:
-                rel = r.choice(cands)
+                rel = r.choice(fresh_rel or cands)
                 ev = self.fresh("i")
                 pos_i = r.choice([i for i, t in enumerate(rel["types"]) if t == "i"])
                 args = []
@@ -275,7 +277,7 @@ class Gen:
                         args.append(ANY)
                 body.append({"k": "atom", "rel": rel["name"], "args": args})
                 other = V(r.choice(bound["i"])) if bound.get("i") and r.random() < 0.6 else N(r.choice([0, 1, 2]))
-                op = r.choice(["LE", "GE", "LT", "GT"])
+                op = r.choice(["LE", "GE", "LE", "GE", "LT", "GT"])
                 if r.random() < 0.5:
                     body.append({"k": "cmp", "op": op, "l": V(ev), "r": other})
                 else:
